@@ -1339,6 +1339,22 @@ def r8_state_survives_user_code(ctx, rule="C16.R8"):
     per_activation = [n for n, t in holders if re.search(r"\bVec<|VecDeque<|Stack", t)]
     ctxs = [a for a in prog.adts.values() if a["path"].startswith("rusty_basic::interpreter::context")
             and any("PrintState" in x["ty"] for v in a["variants"] for x in v["fields"])]
+    # a stack of states is only as good as its use: the start of a statement pushes onto it, the end pops from it
+    used = {}
+    if per_activation:
+        one = ctx.anchor_method("Interpreter", "interpret_one")
+        from .c05 import _arm_regions
+        _sw, regions = _arm_regions(prog, one, "::Instruction")
+        for arm, meth in (("PrintSetPrinterType", "push"), ("PrintEnd", "pop")):
+            hit = False
+            for h_, t_ in _region_deep_calls(prog, one, regions.get(arm, set()), depth=2):
+                if (mir.callee_path(t_) or "").endswith("::" + meth) and t_["args"]:
+                    hpv = mir.Prov(h_.body)
+                    if common.receiver_field(hpv, t_) in per_activation:
+                        hit = True
+            used[arm] = hit
+        if not all(used.values()):
+            per_activation = []
     ctx.analysed_units(rule, lowering=g.path.split("::", 1)[1], user_code_between_device_and_end=live,
                        state_holders=["%s: %s" % h for h in holders])
     if not live:
@@ -1350,7 +1366,9 @@ def r8_state_survives_user_code(ctx, rule="C16.R8"):
                    "%s evaluates user expressions (%s) after the device of the statement has been selected and before "
                    "PrintEnd, and the VM keeps the statement's state in one place (%s): an item that calls a FUNCTION which "
                    "PRINTs re-initialises it, so the rest of `PRINT #1, \"a\"; F$(1); \"b\"` goes to the screen and the "
-                   "file never gets its line end" % (g.name, ", ".join(live), ", ".join("%s: %s" % h for h in holders) or "no field"))
+                   "file never gets its line end%s" % (g.name, ", ".join(live), ", ".join("%s: %s" % h for h in holders) or "no field",
+                                                       "" if not used else " (a stack of states exists, but the start of a statement pushes onto it: %s, "
+                                                       "the end pops from it: %s)" % (used.get("PrintSetPrinterType"), used.get("PrintEnd"))))
     ctx.require(rule, 1)
 
 
